@@ -270,10 +270,11 @@ class Git:
                 folder.as_posix(),
             ]
 
-        args += ["ls-files", "--others", "-i", "--exclude-standard"]
+        # -z: NUL-separated and unquoted (git C-quotes non-ASCII and special names otherwise)
+        args += ["ls-files", "--others", "-i", "--exclude-standard", "-z"]
         output = self.run(*args)
 
-        return output.strip().split("\n")
+        return [path for path in output.split("\0") if path]
 
     def run(self, *args: Any, **kwargs: Any) -> str:
         folder = kwargs.pop("folder", None)
